@@ -86,3 +86,30 @@ Theorem C17_event_names_from_source :
   gen_events_url_suffix = "/api/v1/patches/events"%string.
 Proof. split; reflexivity. Qed.
 Print Assumptions C17_event_names_from_source.
+
+(* ---------- the queue on disk (JsonSj.v): what is saved is what a later process reads ----------
+   Every text that spells the tree of a release version and a list of events - in any white space, escape form and
+   member order the grammar allows - is read back as exactly that release and those events, in order. *)
+From UV Require Import Json JsonText JsonTextProofs JsonSj JsonSjProofs.
+Theorem C17_saved_queue_is_read_back :
+  forall n r q w b w',
+    Forall fevent_in_range q -> GS (sstate_schema n) (json_of_fstate r q) b -> WS w -> WS w' ->
+    sj_of_file_n n (w ++ b ++ w')%list = JOk {| rel := r; evq := map event_of_fevent q |}.
+Proof. exact spelled_state_is_read. Qed.
+Print Assumptions C17_saved_queue_is_read_back.
+
+(* ... and every event of the model has such a spelling: written with any architecture, platform and timestamp, it is the
+   same event when read (the messages of the two failure events are told apart by their text) *)
+Theorem C17_event_survives_the_file :
+  forall a p ts (q : list event),
+    Forall msg_canonical q -> map event_of_fevent (map (fun e => fevent_of_event a p (ts e) e) q) = q.
+Proof. exact queue_is_read_back. Qed.
+Print Assumptions C17_event_survives_the_file.
+
+(* tie to the current sources: the reader of state.json knows the event types by the wire names events.rs gives them *)
+Theorem C17_reader_knows_the_wire_names :
+  map (fun k => (as_evkind (JStr (evkind_str k)))) [EvDownload; EvInstallFailure; EvInstallSuccess] =
+    [Some EvDownload; Some EvInstallFailure; Some EvInstallSuccess] /\
+  map evkind_str [EvDownload; EvInstallFailure; EvInstallSuccess] = map snd gen_event_type_names.
+Proof. split; reflexivity. Qed.
+Print Assumptions C17_reader_knows_the_wire_names.
